@@ -263,8 +263,8 @@ pub fn c04_vs_gen<N: Nd>(n: &mut N, kind: u8, ck: u8) {
 pub fn c14_null<N: Nd>(n: &mut N, stm: u8, a: u32) {
     let (p, half, full) = sym_accepted(n);
     n.assume(stm > 1 || p.stm == stm);
-    let k = crate::sym::keys();
-    let h = refm::zobrist(&p, &k);
+    // the pre-state hash is arbitrary; the assertion is about the change (side key, and the ep key if a file was set)
+    let h = n.u64();
     let b = board_of(&p, half, full, h);
     let (ck, _) = refm::checkers_and_pins(&p, p.stm as usize);
     let np = refm::null_move(&p);
@@ -282,7 +282,7 @@ pub fn c14_null<N: Nd>(n: &mut N, stm: u8, a: u32) {
             assert!(nb.pinned().0 == npin);
             let (nh, nf) = refm::clocks_after_null(&p, half, full);
             assert!(nb.halfmove_clock() == nh && nb.fullmove_number() == nf);
-            assert!(nb.hash() == refm::zobrist(&np, &k));
+            assert!(nb.hash() == h ^ side_key() ^ if p.ep < 8 { ep_key(p.ep) } else { 0 });
             assert!(nb.hash_without_ep() == nb.hash());
             // closure: the result is again an accepted board
             assert!(refm::accepts(&np, nh, nf));
@@ -412,6 +412,67 @@ pub fn sparse_delta(a: &Pos, b: &Pos) -> u64 {
     h
 }
 
+/// A non-castling move of a piece of (constant) kind `kind`: the mover leaves `f`
+/// and the placed piece (the mover, or the promotion piece) appears on `t`; a
+/// captured piece disappears from `t` (or from behind `t` for en passant); rights,
+/// en-passant file and side change as the two positions say.
+pub fn move_delta(a: &Pos, b: &Pos, f: u8, t: u8, pr: u8, kind: usize) -> u64 {
+    let us = a.stm as usize;
+    let them = us ^ 1;
+    let placed = if pr != 0 { (pr - 1) as usize } else { kind };
+    let mut h = piece_key(us, kind, f) ^ piece_key(us, placed, t);
+    let is_ep = kind == PAWN && a.ep < 8 && t == refm::ep_square(a) && (f & 7) != (t & 7);
+    let cap = if is_ep { t ^ 8 } else { t };
+    if a.col[them] & bit(cap) != 0 {
+        h ^= piece_key(them, refm::kind_at(a, bit(cap)), cap);
+    }
+    let mut c = 0;
+    while c < 2 {
+        let mut w = 0;
+        while w < 2 {
+            let (fa, fb) = (a.castle[c][w], b.castle[c][w]);
+            if fa != fb {
+                if fa < 8 {
+                    h ^= castle_key(c, w, fa);
+                }
+                if fb < 8 {
+                    h ^= castle_key(c, w, fb);
+                }
+            }
+            w += 1;
+        }
+        c += 1;
+    }
+    if a.ep != b.ep {
+        if a.ep < 8 {
+            h ^= ep_key(a.ep);
+        }
+        if b.ep < 8 {
+            h ^= ep_key(b.ep);
+        }
+    }
+    h ^ side_key()
+}
+
+/// Castling: king and rook of the mover change squares, both of its rights go.
+pub fn castle_delta(a: &Pos, b: &Pos, f: u8, t: u8) -> u64 {
+    let us = a.stm as usize;
+    let back: u8 = if us == 0 { 0 } else { 56 };
+    let short = a.castle[us][0] == (t & 7);
+    let kd = back + if short { 6 } else { 2 };
+    let rd = back + if short { 5 } else { 3 };
+    let mut h = piece_key(us, KING, f) ^ piece_key(us, KING, kd) ^ piece_key(us, refm::ROOK, t) ^ piece_key(us, refm::ROOK, rd);
+    let mut w = 0;
+    while w < 2 {
+        if a.castle[us][w] < 8 {
+            h ^= castle_key(us, w, a.castle[us][w]);
+        }
+        w += 1;
+    }
+    let _ = b;
+    h ^ side_key() ^ if a.ep < 8 { ep_key(a.ep) } else { 0 }
+}
+
 /// The behavioural en-passant key of a (symbolic) file.
 pub fn ep_key(f: u8) -> u64 {
     let mut k = 0u64;
@@ -508,7 +569,11 @@ pub fn step_play<N: Nd>(n: &mut N, cube: u8, want: u8, a: u32) {
     }
     if want & WANT_C10 != 0 {
         // hash(successor) = hash(pre-state) XOR the keys of exactly the features that differ
-        let d = sparse_delta(&p, &np);
+        let d = match cube {
+            6 => castle_delta(&p, &np, f, t),
+            0..=5 => move_delta(&p, &np, f, t, pr, cube as usize),
+            _ => sparse_delta(&p, &np),
+        };
         assert!(b.hash() == h0 ^ d);
         assert!(b.hash_without_ep() == b.hash() ^ if np.ep < 8 { ep_key(np.ep) } else { 0 });
     }
